@@ -101,13 +101,23 @@ Theorem C04_source_omen_generate_guesses_is_model :
   py_omen_generate_guesses false gs (zlim l) = Ok (lim_take l gs, Z.of_nat (length (lim_take l gs))).
 Proof. exact omen_generate_guesses_eq. Qed.
 
-(* the fuel of the generated recursion (no counterpart in Python) is never exhausted *)
+(* the fuel of the generated recursion (no counterpart in Python) is never exhausted:
+   for ALL inputs - any parse tree (resolvable or not), any limit (also negative ints),
+   any value of should_exit - len(pt) + 1 levels are enough *)
 Theorem C04_source_never_out_of_fuel :
   forall (upper_c : N -> pstr) (gv : pstr -> Z -> option (list pstr)) (py_int : pstr -> Z) (mcr : Z -> list pstr)
-         (pt : list pnode) (slots : list slot) (fuel : nat) (cur : str) (l : lim),
-  resolve gv pt = Some slots -> length pt < fuel ->
-  py_recursive_guesses upper_c gv py_int mcr false fuel cur pt (zlim l) <> Exc OutOfFuel.
-Proof. exact recursive_guesses_fuel_enough. Qed.
+         (should_exit : bool) (pt : list pnode) (fuel : nat) (cur : pstr) (limit : option Z),
+  length pt < fuel ->
+  py_recursive_guesses upper_c gv py_int mcr should_exit fuel cur pt limit <> Exc OutOfFuel.
+Proof. exact recursive_guesses_never_out_of_fuel. Qed.
+
+Theorem C04_source_create_guesses_never_out_of_fuel :
+  forall (upper_c : N -> pstr) (gv : pstr -> Z -> option (list pstr)) (py_int : pstr -> Z) (mcr : Z -> list pstr)
+         (should_exit : bool) (honey : pstr -> list pnode -> option Z -> res (list pstr * Z))
+         (pt : list pnode) (fuel : nat) (limit : option Z),
+  length pt < fuel ->
+  py_create_guesses upper_c gv py_int mcr should_exit honey fuel pt false limit <> Exc OutOfFuel.
+Proof. exact create_guesses_never_out_of_fuel. Qed.
 
 (* the product theorem, the count and the Markov clause for the translated create_guesses *)
 Theorem C04_source_create_guesses_is_product :
@@ -152,3 +162,4 @@ Print Assumptions C04_limit.
 Print Assumptions C04_count_is_lines.
 Print Assumptions C04_source_recursive_guesses_is_model.
 Print Assumptions C04_source_create_guesses_is_product.
+Print Assumptions C04_source_never_out_of_fuel.
